@@ -115,6 +115,8 @@ pub struct World {
 
 pub static WORLD: Mutex<Option<World>> = Mutex::new(None);
 pub static CV: Condvar = Condvar::new();
+/// one condition variable per actor, so that handing the baton over wakes exactly one thread
+pub static CVS: [Condvar; 16] = [const { Condvar::new() }; 16];
 
 thread_local! {
     pub static ME: Cell<usize> = const { Cell::new(0) };
@@ -539,9 +541,9 @@ pub fn yield_point(me: usize, kind: &'static str) {
             w.stats.probe("switch_inside_resolution");
         }
         w.current = next;
-        CV.notify_all();
+        CVS[next % 16].notify_one();
         while g.as_ref().map_or(false, |w| w.current != me) {
-            g = CV.wait(g).unwrap_or_else(|e| e.into_inner());
+            g = CVS[me % 16].wait(g).unwrap_or_else(|e| e.into_inner());
         }
     }
 }
@@ -550,7 +552,7 @@ pub fn yield_point(me: usize, kind: &'static str) {
 pub fn wait_turn(me: usize) {
     let mut g = lock();
     while g.as_ref().map_or(false, |w| w.threaded && w.current != me) {
-        g = CV.wait(g).unwrap_or_else(|e| e.into_inner());
+        g = CVS[me % 16].wait(g).unwrap_or_else(|e| e.into_inner());
     }
 }
 
@@ -574,6 +576,7 @@ pub fn finish(me: usize) {
         let next = if v == 0 { runnable[0] } else { runnable[(v as usize - 1) % runnable.len()] };
         w.ev(0, format!("finish a{me} -> a{next}"));
         w.current = next;
+        CVS[next % 16].notify_one();
     }
     CV.notify_all();
 }
